@@ -18,12 +18,9 @@ def budget(pid, tier):
     return p["budget_quick"] if tier == "quick" else p["budget_thorough"]
 
 
-GIT = "the installed git 2.39.5 is the reference for git's behaviour"
 
-P("C05", "runtime monitor: string-prefix reference model over generated ids/prefixes; Miri on the same workload",
-  "Seeded exploration: every generated (id, prefix length, candidate differing at one nibble) and every generated hex-ish string is run through the real gix-hash code and compared with a lower-case-hex string model; held only on the cases observed.",
-  "Trusts the 20-line string model and Rust's std string comparison.", min_distinct=200)
-
-P("C01", "runtime monitor: size/round-trip/id oracles over generated object values (boundary-biased times), independent SHA-1 and git hash-object, loose-store header read-back",
-  "Seeded exploration of owned Commit/Tag/Tree/Blob values: for each, size()==bytes written, loose header, decode∘encode on the round-trippable sub-domain, id == independent SHA-1 (every case) == git hash-object --literally (sampled), and the loose file's inflated header. Held on the values generated only.",
-  "Trusts sha1_smol, flate2's inflater and git 2.39.5 hash-object; decode equality is taken modulo the trailing newline of multi-line header values (both forms encode identically).", min_distinct=500)
+for _f in sorted(os.listdir(os.path.join(ROOT, "lib", "props.d"))):
+    if _f.endswith(".json"):
+        _d = json.load(open(os.path.join(ROOT, "lib", "props.d", _f)))
+        _pid = _d.pop("id")
+        P(_pid, _d.pop("technique"), _d.pop("level_text"), _d.pop("level_note"), **_d)
